@@ -808,7 +808,12 @@ def execute_fault(world, pre, r):
             raise RuntimeError("HARNESS: how")
         return ExecResult("ok", ret=ret, addressed=S, info={"returned": ret})
     if k == "annihilate_vacuum":
-        ret = call_op(Operation(FockOperationType.Annihilation))
+        if r.get("how") == "custom":
+            # the same invalid request through a user supplied (non-renormalising) operator
+            d = max(pre.sub[on[0]]["dims"], 2)
+            ret = call_op(Operation(FockOperationType.Custom, operator=jnp.asarray(R.destroy(d))))
+        else:
+            ret = call_op(Operation(FockOperationType.Annihilation))
         return ExecResult("ok", ret=ret, addressed=S, info={"returned": ret})
     if k == "shrink_below_support":
         s = support(pre, on[0])
